@@ -81,3 +81,221 @@ package sql
 
 //@ func ForeignKey.IsNullable
 //@   pure
+
+// ---------------------------------------------------------------- C08 (kernel): Go type -> SQL type
+
+// Crash freedom of these functions (nil nodes, failing type assertions, the exhaustive-switch panics) is the
+// subject of C18, not of C08: their contracts carry `nosafety` and state the mapping only.
+
+// the documented mapping of basic types: bool -> boolean; int16, uint8 -> smallint; other integers -> integer;
+// floats -> real; strings -> text. Stated over the go/types info flags (proved from the code) ...
+//@ func basicTypeName
+//@   props C08
+//@   pure
+//@   nosafety
+//@   ensures bitand(ty.Info(), types.IsBoolean) != 0 ==> result == "boolean"
+//@   ensures bitand(ty.Info(), types.IsBoolean) == 0 && bitand(ty.Info(), types.IsInteger) != 0 && (ty.Kind() == types.Int16 || ty.Kind() == types.Uint8) ==> result == "smallint"
+//@   ensures bitand(ty.Info(), types.IsBoolean) == 0 && bitand(ty.Info(), types.IsInteger) != 0 && !(ty.Kind() == types.Int16 || ty.Kind() == types.Uint8) ==> result == "integer"
+//@   ensures bitand(ty.Info(), types.IsBoolean) == 0 && bitand(ty.Info(), types.IsInteger) == 0 && bitand(ty.Info(), types.IsFloat) != 0 ==> result == "real"
+//@   ensures bitand(ty.Info(), types.IsBoolean) == 0 && bitand(ty.Info(), types.IsInteger) == 0 && bitand(ty.Info(), types.IsFloat) == 0 && bitand(ty.Info(), types.IsString) != 0 ==> result == "text"
+//@   -- ... and, with the go/types table of basic kinds (assumed, see base.spec), over the Go types themselves
+//@   ensures ty.Kind() == types.Bool ==> result == "boolean"
+//@   ensures ty.Kind() == types.Int16 || ty.Kind() == types.Uint8 ==> result == "smallint"
+//@   ensures ty.Kind() == types.Int || ty.Kind() == types.Int8 || ty.Kind() == types.Int32 || ty.Kind() == types.Int64 ==> result == "integer"
+//@   ensures ty.Kind() == types.Uint || ty.Kind() == types.Uint16 || ty.Kind() == types.Uint32 || ty.Kind() == types.Uint64 ==> result == "integer"
+//@   ensures ty.Kind() == types.Float32 || ty.Kind() == types.Float64 ==> result == "real"
+//@   ensures ty.Kind() == types.String ==> result == "text"
+
+// []byte
+//@ func isBinary
+//@   props C08
+//@   pure
+//@   nosafety
+//@   ensures result <==> is(ty.Elem, *an.Basic) && as(ty.Elem, *an.Basic).B.Kind() == types.Byte
+
+//@ func IsInt64
+//@   props C08
+//@   pure
+//@   nosafety
+//@   ensures result <==> is(ty.Underlying(), *types.Basic) && as(ty.Underlying(), *types.Basic).Kind() == types.Int64
+
+// a `Valid bool` field
+//@ pred validField(f *types.Var) bool = is(f.Type().Underlying(), *types.Basic) && as(f.Type().Underlying(), *types.Basic).Info() == types.IsBoolean && f.Name() == "Valid"
+
+// the data field of a two-field struct whose other field is `Valid bool` (both orders), else nil
+//@ func IsNullXXX
+//@   props C08
+//@   pure
+//@   nosafety
+//@   ensures !is(typ.Underlying(), *types.Struct) ==> result == nil
+//@   ensures is(typ.Underlying(), *types.Struct) && as(typ.Underlying(), *types.Struct).NumFields() != 2 ==> result == nil
+//@   ensures is(typ.Underlying(), *types.Struct) && as(typ.Underlying(), *types.Struct).NumFields() == 2 && validField(as(typ.Underlying(), *types.Struct).Field(0)) ==> result == as(typ.Underlying(), *types.Struct).Field(1)
+//@   ensures is(typ.Underlying(), *types.Struct) && as(typ.Underlying(), *types.Struct).NumFields() == 2 && !validField(as(typ.Underlying(), *types.Struct).Field(0)) && validField(as(typ.Underlying(), *types.Struct).Field(1)) ==> result == as(typ.Underlying(), *types.Struct).Field(0)
+//@   ensures is(typ.Underlying(), *types.Struct) && as(typ.Underlying(), *types.Struct).NumFields() == 2 && !validField(as(typ.Underlying(), *types.Struct).Field(0)) && !validField(as(typ.Underlying(), *types.Struct).Field(1)) ==> result == nil
+//@   ensures result != nil ==> is(typ.Underlying(), *types.Struct)
+
+//@ func isNullInt64
+//@   props C08
+//@   pure
+//@   nosafety
+//@   ensures result <==> is(ty.Type(), *types.Named) && IsNullXXX(as(ty.Type(), *types.Named)) != nil && IsInt64(IsNullXXX(as(ty.Type(), *types.Named)).Type())
+
+// only integer fields (basic integers and integer enums)
+//@ func isComposite
+//@   props C08
+//@   pure
+//@   nosafety
+//@   ensures result <==> (forall i int :: 0 <= i && i < len(st.Fields) ==> (is(st.Fields[i].Type, *an.Enum) && as(st.Fields[i].Type, *an.Enum).IsInteger()) || (is(st.Fields[i].Type, *an.Basic) && as(st.Fields[i].Type, *an.Basic).Kind() == an.BKInt))
+//@   loop st.Fields.1 index n
+//@   loop st.Fields.1 invariant forall i int :: 0 <= i && i < n ==> (is(st.Fields[i].Type, *an.Enum) && as(st.Fields[i].Type, *an.Enum).IsInteger()) || (is(st.Fields[i].Type, *an.Basic) && as(st.Fields[i].Type, *an.Basic).Kind() == an.BKInt)
+
+// the documented Go -> SQL mapping
+//@ func newType
+//@   props C08
+//@   pure
+//@   nosafety
+//@   -- basic types, by name
+//@   ensures is(ty, *an.Basic) ==> is(result, Builtin) && as(result, Builtin).t == ty && as(result, Builtin).name == basicTypeName(as(ty, *an.Basic).B)
+//@   -- time: date or timestamp
+//@   ensures is(ty, *an.Time) ==> is(result, Builtin) && as(result, Builtin).t == ty && as(result, Builtin).name == ite(as(ty, *an.Time).IsDate, "date", "timestamp (0) with time zone")
+//@   -- []byte is bytea; arrays of basic types or integer enums are SQL arrays; other arrays are jsonb
+//@   ensures is(ty, *an.Array) && isBinary(as(ty, *an.Array)) ==> is(result, Builtin) && as(result, Builtin).t == ty && as(result, Builtin).name == "bytea"
+//@   ensures is(ty, *an.Array) && !isBinary(as(ty, *an.Array)) && (is(as(ty, *an.Array).Elem, *an.Basic) || (is(as(ty, *an.Array).Elem, *an.Enum) && as(as(ty, *an.Array).Elem, *an.Enum).IsInteger())) ==> is(result, Array) && as(result, Array).A == ty
+//@   ensures is(ty, *an.Array) && !isBinary(as(ty, *an.Array)) && !(is(as(ty, *an.Array).Elem, *an.Basic) || (is(as(ty, *an.Array).Elem, *an.Enum) && as(as(ty, *an.Array).Elem, *an.Enum).IsInteger())) ==> is(result, JSON) && as(result, JSON).t == ty
+//@   -- enums
+//@   ensures is(ty, *an.Enum) ==> is(result, Enum) && as(result, Enum).E == ty
+//@   -- maps and unions are jsonb
+//@   ensures is(ty, *an.Map) || is(ty, *an.Union) ==> is(result, JSON) && as(result, JSON).t == ty
+//@   -- structs: nullable wrappers take the type of the wrapped field, all-integer structs are composite types, the rest is jsonb
+//@   ensures is(ty, *an.Struct) && IsNullXXX(as(ty, *an.Struct).Name) != nil && is(IsNullXXX(as(ty, *an.Struct).Name).Type().Underlying(), *types.Basic) && second(an.NewBasicKind(as(IsNullXXX(as(ty, *an.Struct).Name).Type().Underlying(), *types.Basic).Info())) ==> is(result, Builtin) && as(result, Builtin).t == ty && as(result, Builtin).name == basicTypeName(as(IsNullXXX(as(ty, *an.Struct).Name).Type().Underlying(), *types.Basic))
+//@   ensures is(ty, *an.Struct) && IsNullXXX(as(ty, *an.Struct).Name) != nil && !is(IsNullXXX(as(ty, *an.Struct).Name).Type().Underlying(), *types.Basic) && second(an.NewTime(IsNullXXX(as(ty, *an.Struct).Name).Type())) ==> is(result, Builtin) && as(result, Builtin).t == ty && (as(result, Builtin).name == "date" || as(result, Builtin).name == "timestamp (0) with time zone")
+//@   ensures is(ty, *an.Struct) && IsNullXXX(as(ty, *an.Struct).Name) != nil && !is(IsNullXXX(as(ty, *an.Struct).Name).Type().Underlying(), *types.Basic) && !second(an.NewTime(IsNullXXX(as(ty, *an.Struct).Name).Type())) ==> is(result, JSON) && as(result, JSON).t == ty
+//@   ensures is(ty, *an.Struct) && IsNullXXX(as(ty, *an.Struct).Name) == nil && isComposite(as(ty, *an.Struct)) ==> is(result, Composite) && as(result, Composite).t == ty
+//@   ensures is(ty, *an.Struct) && IsNullXXX(as(ty, *an.Struct).Name) == nil && !isComposite(as(ty, *an.Struct)) ==> is(result, JSON) && as(result, JSON).t == ty
+//@   -- named types map like their definition
+//@   ensures is(ty, *an.Named) ==> result == newType(as(ty, *an.Named).Underlying)
+
+// ---------------------------------------------------------------- C08 (kernel): columns and foreign keys
+
+// a field becomes a column iff it is a guard or an exported Go field
+//@ pred isColumn(f an.StructField) bool = f.Tag.Get("gomacro-sql-guard") != "" || f.Field.Exported()
+
+// one column per exported-or-guard field, in field order, typed by newType
+//@ func NewTable
+//@   props C08
+//@   requires s != nil && (forall i int :: 0 <= i && i < len(s.Fields) ==> s.Fields[i].Field != nil)
+//@   -- the fields of a struct are distinct objects
+//@   requires forall i, j int :: 0 <= i && i < j && j < len(s.Fields) ==> s.Fields[i].Field != s.Fields[j].Field
+//@   ensures result.Name == s.Name
+//@   ensures forall k int :: 0 <= k && k < len(result.Columns) ==> (exists i int :: 0 <= i && i < len(s.Fields) && isColumn(s.Fields[i]) && result.Columns[k].Field == s.Fields[i] && result.Columns[k].SQLType == newType(s.Fields[i].Type))
+//@   ensures forall i int :: 0 <= i && i < len(s.Fields) && isColumn(s.Fields[i]) ==> (exists k int :: 0 <= k && k < len(result.Columns) && result.Columns[k].Field == s.Fields[i])
+//@   ensures forall k1, k2, i1, i2 int :: 0 <= k1 && k1 < k2 && k2 < len(result.Columns) && 0 <= i1 && i1 < len(s.Fields) && 0 <= i2 && i2 < len(s.Fields) && result.Columns[k1].Field.Field == s.Fields[i1].Field && result.Columns[k2].Field.Field == s.Fields[i2].Field ==> i1 < i2
+//@   ensures distinctCols(result)
+//@   loop s.Fields.1 index n
+//@   loop s.Fields.1 invariant out.Name == s.Name
+//@   loop s.Fields.1 invariant forall k int :: 0 <= k && k < len(out.Columns) ==> (exists i int :: 0 <= i && i < n && isColumn(s.Fields[i]) && out.Columns[k].Field == s.Fields[i] && out.Columns[k].SQLType == newType(s.Fields[i].Type))
+//@   loop s.Fields.1 invariant forall i int :: 0 <= i && i < n && isColumn(s.Fields[i]) ==> (exists k int :: 0 <= k && k < len(out.Columns) && out.Columns[k].Field == s.Fields[i])
+//@   loop s.Fields.1 invariant forall k1, k2, i1, i2 int :: 0 <= k1 && k1 < k2 && k2 < len(out.Columns) && 0 <= i1 && i1 < len(s.Fields) && 0 <= i2 && i2 < len(s.Fields) && out.Columns[k1].Field.Field == s.Fields[i1].Field && out.Columns[k2].Field.Field == s.Fields[i2].Field ==> i1 < i2
+//@   loop s.Fields.1 invariant isnil(out.Columns) || (fresh(out.Columns) && allocated(out.Columns))
+//@   loop s.Fields.1 invariant isnil(out.CustomConstraints)
+
+// an int64 named type whose name starts or ends with "id" (any case) and is longer than that names the table
+// made of the rest of the name
+//@ pred idNamed(ty an.Type) bool = is(ty, *an.Named) && IsInt64(as(ty, *an.Named).Underlying.Type())
+//@ func isTableID
+//@   props C08
+//@   pure
+//@   nosafety
+//@   ensures !idNamed(ty) ==> result == ""
+//@   ensures idNamed(ty) && len(an.LocalName(ty)) > 2 && strings.HasPrefix(strings.ToLower(an.LocalName(ty)), "id") ==> result == an.LocalName(ty)[2:]
+//@   ensures idNamed(ty) && len(an.LocalName(ty)) > 2 && !strings.HasPrefix(strings.ToLower(an.LocalName(ty)), "id") && strings.HasSuffix(strings.ToLower(an.LocalName(ty)), "id") ==> result == an.LocalName(ty)[:len(an.LocalName(ty))-2]
+//@   ensures idNamed(ty) && !(len(an.LocalName(ty)) > 2 && (strings.HasPrefix(strings.ToLower(an.LocalName(ty)), "id") || strings.HasSuffix(strings.ToLower(an.LocalName(ty)), "id"))) ==> result == ""
+
+// the table a field refers to: the one named by its ID type (unless it is the table itself), else the one
+// named by its gomacro-sql-foreign tag, else none ("")
+//@ pred fkTarget(self string, f an.StructField) TableName = ite(isTableID(f.Type) != "" && isTableID(f.Type) != self, isTableID(f.Type), f.Tag.Get("gomacro-sql-foreign"))
+
+//@ func (*Table).newForeignKey
+//@   props C08
+//@   nosafety
+//@   requires ta != nil
+//@   ensures result2 <==> fkTarget(ta.Name.Obj().Name(), field) != ""
+//@   ensures result2 ==> result1.F == field && result1.Target == fkTarget(ta.Name.Obj().Name(), field) && result1.IsUnique == ta.uniqueColumns[field.Field.Name()]
+
+// the columns of a table are distinct fields (established by NewTable)
+//@ pred distinctCols(ta Table) bool = forall i, j int :: 0 <= i && i < j && j < len(ta.Columns) ==> ta.Columns[i].Field.Field != ta.Columns[j].Field.Field
+
+// exactly one key per foreign-key column, in column order
+//@ func Table.ForeignKeys
+//@   props C08
+//@   nosafety
+//@   ensures forall k int :: 0 <= k && k < len(out) ==> (exists i int :: 0 <= i && i < len(ta.Columns) && fkTarget(ta.Name.Obj().Name(), ta.Columns[i].Field) != "" && out[k].F == ta.Columns[i].Field && out[k].Target == fkTarget(ta.Name.Obj().Name(), ta.Columns[i].Field))
+//@   ensures forall i int :: 0 <= i && i < len(ta.Columns) && fkTarget(ta.Name.Obj().Name(), ta.Columns[i].Field) != "" ==> (exists k int :: 0 <= k && k < len(out) && out[k].F == ta.Columns[i].Field)
+//@   ensures distinctCols(old(ta)) ==> forall k1, k2, i1, i2 int :: 0 <= k1 && k1 < k2 && k2 < len(out) && 0 <= i1 && i1 < len(ta.Columns) && 0 <= i2 && i2 < len(ta.Columns) && out[k1].F.Field == ta.Columns[i1].Field.Field && out[k2].F.Field == ta.Columns[i2].Field.Field ==> i1 < i2
+//@   loop ta.Columns.1 index n
+//@   loop ta.Columns.1 invariant forall k int :: 0 <= k && k < len(out) ==> (exists i int :: 0 <= i && i < n && fkTarget(ta.Name.Obj().Name(), ta.Columns[i].Field) != "" && out[k].F == ta.Columns[i].Field && out[k].Target == fkTarget(ta.Name.Obj().Name(), ta.Columns[i].Field))
+//@   loop ta.Columns.1 invariant forall i int :: 0 <= i && i < n && fkTarget(ta.Name.Obj().Name(), ta.Columns[i].Field) != "" ==> (exists k int :: 0 <= k && k < len(out) && out[k].F == ta.Columns[i].Field)
+//@   loop ta.Columns.1 invariant forall k int :: 0 <= k && k < len(out) ==> (exists i int :: 0 <= i && i < n && out[k].F.Field == ta.Columns[i].Field.Field)
+//@   loop ta.Columns.1 invariant distinctCols(old(ta)) ==> forall k1, k2, i1, i2 int :: 0 <= k1 && k1 < k2 && k2 < len(out) && 0 <= i1 && i1 < len(ta.Columns) && 0 <= i2 && i2 < len(ta.Columns) && out[k1].F.Field == ta.Columns[i1].Field.Field && out[k2].F.Field == ta.Columns[i2].Field.Field ==> i1 < i2
+//@   loop ta.Columns.1 invariant isnil(out) || (fresh(out) && allocated(out))
+
+// the tagged ON DELETE action
+//@ func ForeignKey.OnDelete
+//@   props C08
+//@   pure
+//@   ensures result == fk.F.Tag.Get("gomacro-sql-on-delete")
+
+// the SQL name of a type is a function of the type
+//@ puremethod Type.Name
+
+// nullable builtins come from `Valid bool` + data wrappers
+//@ func Builtin.IsNullable
+//@   props C08
+//@   pure
+//@   nosafety
+//@   ensures result <==> is(b.t.Type(), *types.Named) && IsNullXXX(as(b.t.Type(), *types.Named)) != nil
+
+//@ pred structOK(s *an.Struct) bool = s != nil && (forall i int :: 0 <= i && i < len(s.Fields) ==> s.Fields[i].Field != nil) && (forall i, j int :: 0 <= i && i < j && j < len(s.Fields) ==> s.Fields[i].Field != s.Fields[j].Field)
+
+// one table per struct of the analysed file
+//@ func SelectTables
+//@   props C08
+//@   -- type invariant of analysed structs: fields are distinct, non nil, objects
+//@   requires ana != nil && (forall s *an.Struct :: is(s, *an.Struct) ==> structOK(s))
+//@   ensures forall k int :: 0 <= k && k < len(out) ==> (exists i int :: 0 <= i && i < len(ana.Source) && is(ana.Types[ana.Source[i]], *an.Struct) && out[k].Name == as(ana.Types[ana.Source[i]], *an.Struct).Name)
+//@   ensures forall i int :: 0 <= i && i < len(ana.Source) && is(ana.Types[ana.Source[i]], *an.Struct) ==> (exists k int :: 0 <= k && k < len(out) && out[k].Name == as(ana.Types[ana.Source[i]], *an.Struct).Name)
+//@   loop ana.Source.1 index n
+//@   loop ana.Source.1 invariant forall k int :: 0 <= k && k < len(out) ==> (exists i int :: 0 <= i && i < n && is(ana.Types[ana.Source[i]], *an.Struct) && out[k].Name == as(ana.Types[ana.Source[i]], *an.Struct).Name)
+//@   loop ana.Source.1 invariant forall i int :: 0 <= i && i < n && is(ana.Types[ana.Source[i]], *an.Struct) ==> (exists k int :: 0 <= k && k < len(out) && out[k].Name == as(ana.Types[ana.Source[i]], *an.Struct).Name)
+//@   loop ana.Source.1 invariant isnil(out) || (fresh(out) && allocated(out))
+
+// accessors
+//@ func Builtin.Type
+//@   props C08
+//@   pure
+//@   ensures result == ty.t
+//@ func Enum.Type
+//@   props C08
+//@   pure
+//@   ensures result == ty.E
+//@ func Array.Type
+//@   props C08
+//@   pure
+//@   ensures result == ty.A
+//@ func Composite.Type
+//@   props C08
+//@   pure
+//@   ensures result == ty.t
+//@ func JSON.Type
+//@   props C08
+//@   pure
+//@   ensures result == ty.t
+//@ func Composite.Name
+//@   props C08
+//@   pure
+//@   nosafety
+//@ func Composite.SQLType
+//@   props C08
+//@   pure
+//@   nosafety
+//@   ensures result == newType(ty.t.Fields[fieldIndex].Type)
